@@ -194,6 +194,11 @@ type c09Env struct {
 	// from its file is reported, but the case goes on so that the clean itself
 	// is judged against the files too (history unit).
 	softAcct bool
+	// deferScan: scan() does not report what it finds but leaves it in
+	// scanIssue (fingerprint + text); the periodic unit reports it only when
+	// it persists over several observations with no cleaner pass in between
+	deferScan bool
+	scanIssue [2]string
 }
 
 func c09Opts(tag string, maxSeg int64, lim c09Limits) Options {
@@ -306,10 +311,19 @@ func (e *c09Env) setHW(hw int64) {
 
 // scan parses the segment files and cross-checks them with what the log and
 // its segment objects report (the quantities the limits are measured in).
+func (e *c09Env) scanFail(fp, what string, w map[string]any) {
+	if e.deferScan {
+		e.scanIssue = [2]string{fp, what}
+		return
+	}
+	e.fail(fp, what, w)
+}
+
 func (e *c09Env) scan(stage string) ([]c09Seg, bool) {
+	e.scanIssue = [2]string{}
 	raw, err := vfScanDir(e.dir)
 	if err != nil {
-		e.fail("C09:raw-scan", fmt.Sprintf("%s: %v", stage, err), nil)
+		e.scanFail("C09:raw-scan", fmt.Sprintf("%s: %v", stage, err), nil)
 		return nil, false
 	}
 	st := make([]c09Seg, len(raw))
@@ -319,23 +333,23 @@ func (e *c09Env) scan(stage string) ([]c09Seg, bool) {
 			s.LastTS, s.FirstOff, s.LastOff = r.Recs[n-1].TS, r.Recs[0].Off, r.Recs[n-1].Off
 		}
 		if r.Trailing != 0 {
-			e.fail("C09:raw-scan", fmt.Sprintf("%s: segment %s has %d trailing bytes", stage, r.File, r.Trailing), nil)
+			e.scanFail("C09:raw-scan", fmt.Sprintf("%s: segment %s has %d trailing bytes", stage, r.File, r.Trailing), nil)
 			return nil, false
 		}
 		st[i] = s
 	}
 	segs := e.log.Segments()
 	if len(segs) != len(st) {
-		e.fail("C09:files-vs-segments", fmt.Sprintf("%s: the log lists segments %v, the directory holds .log files %v", stage, c09SegBases(segs), c09Bases(st)), nil)
+		e.scanFail("C09:files-vs-segments", fmt.Sprintf("%s: the log lists segments %v, the directory holds .log files %v", stage, c09SegBases(segs), c09Bases(st)), nil)
 		return st, false
 	}
 	for i, s := range segs {
 		if s.BaseOffset != st[i].Base {
-			e.fail("C09:files-vs-segments", fmt.Sprintf("%s: the log lists segments %v, the directory holds .log files %v", stage, c09SegBases(segs), c09Bases(st)), nil)
+			e.scanFail("C09:files-vs-segments", fmt.Sprintf("%s: the log lists segments %v, the directory holds .log files %v", stage, c09SegBases(segs), c09Bases(st)), nil)
 			return st, false
 		}
 		if s.MessageCount() != st[i].Count || s.Position() != st[i].Bytes || (st[i].Count > 0 && s.lastWriteTime != st[i].LastTS) {
-			e.fail("C09:segment-accounting", fmt.Sprintf("%s: segment base %d reports count=%d bytes=%d lastWrite=%d, its file holds %v",
+			e.scanFail("C09:segment-accounting", fmt.Sprintf("%s: segment base %d reports count=%d bytes=%d lastWrite=%d, its file holds %v",
 				stage, s.BaseOffset, s.MessageCount(), s.Position(), s.lastWriteTime, st[i]), nil)
 			if !e.softAcct {
 				return st, false
